@@ -236,6 +236,8 @@ func NewDialogueRunner(storer variable.Storer, rngSeed string, readers ...io.Rea
 		commandStorer:   newCommandStorer(),
 		visitedNodes:    map[string]int{},
 		currentNode:     firstNode.Title(),
+		// entering the first node: this is what a snapshot taken before any jump holds
+		variableSnapshot: storer.GetValues(),
 	}
 
 	functionStorer := newFunctionStorer(rng)
@@ -422,7 +424,15 @@ func (dr *DialogueRunner) RestoreAt(snapshot *Snapshot) error {
 		return fmt.Errorf("dialogue does not contain a node with title [%s]", snapshot.CurrentNode)
 	}
 
-	dr.visitedNodes = snapshot.VisitedNodes
+	// the snapshot stays independent of this runner (and of other runners restored from it)
+	dr.visitedNodes = make(map[string]int, len(snapshot.VisitedNodes))
+	for visitedNode, count := range snapshot.VisitedNodes {
+		dr.visitedNodes[visitedNode] = count
+	}
+	dr.variableSnapshot = make(map[string]variable.Value, len(snapshot.Variables))
+	for variable, value := range snapshot.Variables {
+		dr.variableSnapshot[variable] = value
+	}
 	dr.variableStorer.Clear()
 	for variable, value := range snapshot.Variables {
 		if value.Boolean != nil {
@@ -439,6 +449,9 @@ func (dr *DialogueRunner) RestoreAt(snapshot *Snapshot) error {
 	dr.statementsToRun.Clear()
 	dr.statementsToRun.Push(&statementQueue{statements: node.Statements})
 	dr.currentNode = node.Title()
+	// forget any choice or command the runner was waiting for
+	dr.lastStatement = nil
+	dr.commandErrChan = nil
 	return nil
 }
 
@@ -467,10 +480,19 @@ func (dr *DialogueRunner) ConvertAndAddCommand(commandID string, command any) er
 // Snapshot returns the state of the dialogue runner as of the last time a node was entered.
 // It can then be used to later restore the state of the dialogue runner.
 func (dr *DialogueRunner) Snapshot() *Snapshot {
+	// copies, so that nothing the runner does afterwards changes the snapshot
+	variables := make(map[string]variable.Value, len(dr.variableSnapshot))
+	for variable, value := range dr.variableSnapshot {
+		variables[variable] = value
+	}
+	visitedNodes := make(map[string]int, len(dr.visitedNodes))
+	for visitedNode, count := range dr.visitedNodes {
+		visitedNodes[visitedNode] = count
+	}
 	return &Snapshot{
-		Variables:    dr.variableSnapshot,
+		Variables:    variables,
 		CurrentNode:  dr.currentNode,
-		VisitedNodes: dr.visitedNodes,
+		VisitedNodes: visitedNodes,
 	}
 }
 
